@@ -3,7 +3,7 @@
   never holds one again, and never is a successor.
 -/
 import DymVerif.Lemmas.CoreRolesClass
-namespace DymVerif.Core
+namespace DymVerif.Core.Roles
 
 /-- a rollapp that did not exist before the operation has an empty proposer slot after it -/
 theorem apply_new_rollapp {s s' : St} {o : Op} {id : Nat} {r' : Rollapp} (h : Roles s)
@@ -155,4 +155,4 @@ theorem out_after_removal {s s' : St} {o : Op} {id : Nat} {r : Rollapp} {a : Add
   have hg' : getRa s' id = some r' := by rw [← hid]; exact getRa_of_mem h'.core.uniq.ids hr'
   exact hlost r' hg' hp'
 
-end DymVerif.Core
+end DymVerif.Core.Roles
